@@ -27,7 +27,7 @@ fn one(prop: &str, seed: u64, quiet_build: bool) -> Result<(Option<i32>, String,
 
 /// Runs `seeds` Miri processes (16 at a time) and merges what their monitors saw.
 pub fn run_miri_seeds(rep: &mut Report, prop: &str, seeds: u64) {
-    if rep.only.is_some() {
+    if rep.only.is_some() || std::env::var("L4V_SUBRUN").is_ok() {
         return;
     }
     let t0 = Instant::now();
